@@ -2,6 +2,7 @@
 environment models (torch / numpy / numba / tqdm / pandas ...) and whose builtins understand
 symbolic values.  Nothing is transcribed: the text that is executed is the text in /repo."""
 import ast
+import copy
 import builtins
 import hashlib
 import os
@@ -85,6 +86,7 @@ class Loader:
         self.loaded = {}
         self.sources = {}
         self.overrides = overrides or {}
+        self._snap = {}
 
     def path(self, modname):
         return os.path.join(self.repo, "tangermeme", *modname.split(".")) + ".py"
@@ -143,7 +145,19 @@ class Loader:
         exec(compile(src, path, "exec"), mod.__dict__)
         for k, v in self.overrides.get(modname, {}).items():
             setattr(mod, k, v)
+        self._snap[modname] = {k: copy.deepcopy(v) for k, v in mod.__dict__.items()
+                               if isinstance(v, (dict, list, set)) and not k.startswith("__")}
         return mod
+
+    def restore(self):
+        """reset mutable module-level containers (caches, registries) of every loaded module to their state right
+        after import, so that re-executed paths are pure functions of their decisions"""
+        for modname, snap in self._snap.items():
+            mod = self.loaded[modname]
+            for k, v in snap.items():
+                cur = mod.__dict__.get(k)
+                if cur is None or type(cur) is not type(v) or cur != v:
+                    mod.__dict__[k] = copy.deepcopy(v)
 
     # ---- AST helpers
     def func_ast(self, modname, fname):
